@@ -70,9 +70,9 @@ def render_stmt(shape, marker, macro, rid, structured, words, indent="    "):
         msg += " \\\"quoted\\\" \\\\ end"
     pre = ""
     kvs = ""
-    if shape == "target":
+    if shape in ("target", "target_kv"):
         pre = "target: \"app_events\", "
-    if shape == "kv":
+    if shape in ("kv", "target_kv"):
         kvs = "attempt = 3"
     if shape == "kv2":
         kvs = "user = \"a;b,c\", attempt:? = 3"
@@ -179,7 +179,8 @@ def wm_world(wm):
     w = {}
     for p, e in wm.get("extra", {}).items():
         w[p] = e
-    w["proj/" + wm.get("cfg_name", "Breadlog.yaml")] = {"t": "f", "mode": 0o644, "data": wm.get("cfg_raw") or render_cfg(wm["cfg"])}
+    w["proj/" + wm.get("cfg_name", "Breadlog.yaml")] = {"t": "f", "mode": 0o644, "data": wm.get("cfg_raw") or render_cfg(wm["cfg"]),
+                                                       "subst": True}
     for p, segs in wm["files"].items():
         w[p] = {"t": "f", "mode": wm.get("modes", {}).get(p, 0o644), "data": segs_bytes(segs)}
     if wm.get("lock") is not None:
